@@ -84,6 +84,7 @@ class Scheduler:
         self.task_errors = []  # (thread name, fn name, repr(exc), traceback)
         self.stop_when = None
         self.cap_hit = False
+        self.last_run = {}  # tid -> step index at which it last ran
         self.sig = []  # schedule signature: sequence of (tid) at task boundaries (for distinct-schedule counting)
 
     # ---- called from virtual threads ---------------------------------------------------------
@@ -122,11 +123,13 @@ class Scheduler:
 
     # ---- controller ------------------------------------------------------------------------------
     def _order(self, en, last):
+        n = len(self.threads)
+        lt = last.tid if last is not None else -1
         if self.policy == "prio":
-            en.sort(key=lambda t: (self.prio.get(t.name, 50), t.tid))
+            # priority levels, round-robin (fair) inside a level: a free-running source must not starve its peers
+            # (least recently run first: a plain rotation would let b/a <-> a ping-pong starve c)
+            en.sort(key=lambda t: (self.prio.get(t.name, 50), self.last_run.get(t.tid, -1), t.tid))
         else:
-            n = len(self.threads)
-            lt = last.tid if last is not None else -1
             if self.policy == "rr":
                 en.sort(key=lambda t: (t.tid - lt - 1) % n)
             else:  # rev
@@ -167,6 +170,7 @@ class Scheduler:
             self.ctrl.acquire()
             self.current = None
             last = th
+            self.last_run[th.tid] = self.n_steps
             self.n_steps += 1
             if self.n_steps > self.max_steps:
                 self.cap_hit = True
